@@ -133,7 +133,9 @@ public:
             if (p) return p;
         }
         SchVector::iterator iter = std::find_if(_scheduled.begin(), _scheduled.end(),[&](const SchItem &x) {
-            return x._ident == id;
+            //skip items already emptied by previous remove() - they stay in the heap
+            //until they reach the top
+            return x._ident == id && x._p;
         });
         if (iter == _scheduled.end()) return {};
         return std::move(iter->_p);
